@@ -430,7 +430,8 @@ class MeasurementConverter:
         pass
     return trial.Measurement(
         metrics=metrics,
-        elapsed_secs=proto.elapsed_duration.seconds,
+        elapsed_secs=proto.elapsed_duration.seconds
+        + 1e-9 * proto.elapsed_duration.nanos,
         steps=proto.step_count,
     )
 
